@@ -239,6 +239,17 @@ func C12(run *report.Run) {
 	}
 	wg.Wait()
 	if firstErr != nil {
+		// the explorer runs the generator in-process: a panic or fatal error inside goag's own packages that
+		// kills it is a finding (the generator crashed under some schedule / on some run), not a harness fault
+		msg := firstErr.Error()
+		if (strings.Contains(msg, "panic:") || strings.Contains(msg, "fatal error:")) && (strings.Contains(msg, "github.com/vkd/goag/generator.") || strings.Contains(msg, "github.com/vkd/goag/specification.") || strings.Contains(msg, "github.com/vkd/goag.")) {
+			run.Violate(&report.Violation{Attrs: map[string]string{"class": "generator-crashed", "frame": panicFrame(msg)}, State: "explorer", Observed: trunc(msg, 1500),
+				Expected: "the generator runs to completion under every schedule", Detail: map[string]any{"stderr": trunc(msg, 6000)}})
+			run.Cap("an explorer shard died inside the generator; its part of the schedule space was not explored")
+			run.Cov["states"], run.Cov["transitions"], run.Cov["traces_validated_against_impl"] = 0, 0, 0
+			run.Cov["rule"] = "the exploration was cut short by a crash of the generator"
+			return
+		}
 		internal("%v", firstErr)
 	}
 	var runs int64
